@@ -48,6 +48,8 @@ def prec_value(p):
         return True, None
     if p == "false":
         return True, False
+    if p == "int0":
+        return True, 0                 # the int 0 (falsy, like 0.0 and False): an exact check
     return True, float(p)
 
 
@@ -66,6 +68,8 @@ def prec_units(p, ub=10):
     exactly for every integer d:  d*unit > p  <=>  d > floor(p/unit)"""
     if p in ("none", "false"):
         return None
+    if p == "int0":
+        return 0
     if p == "default":
         from dendropy.utility import constants
         v = Fraction(constants.DEFAULT_ULTRAMETRICITY_PRECISION)
@@ -81,7 +85,7 @@ def c_prec(p, ub=10):
         return "PNone"
     if p == "false":
         return "PFalse"
-    if p == "default":
+    if p in ("default", "int0"):
         return "(PNum %s)" % cz(prec_units(p, ub))
     v = Fraction(float(p))
     if v < 0:
@@ -270,6 +274,59 @@ def gen_stats_case(rng, maxleaves):
             "gprecs": ["default"] + rng.sample(["none", 0, UNIT, 2 * UNIT, 1.0, -1.0], 2)}
 
 
+# pybus_harvey_gamma(tree, prec): the ultrametricity precision handed to the gamma entry point, every kind of value
+# (falsy ones included: 0, 0.0 = exact check, False = check disabled, None = check disabled), through the function
+# and through the deprecated Tree.pybus_harvey_gamma method, on the 2**-40 grid (deviations of one unit = 9e-13,
+# of about 1e-9, and around the default 1e-5) and on the 2**-10 grid (deviations around 1e-3 and grossly crooked)
+GAMMA_PRECS = ["int0", 0.0, "false", "none", "default", 1e-12, 1e-9, -1.0, 1.0, UNIT]
+
+
+def gen_gamma_case(rng, maxleaves):
+    n = rng.randint(3, max(3, min(maxleaves, 9)))
+    fine = rng.random() < 0.7
+    ub = FINE_BITS if fine else 10
+    t = gen_ultrametric(rng, n, shape=rng.choice(["binary", "binary", "caterpillar"]),
+                        scale=2 ** (FINE_BITS - 10) if fine else 1)
+    k = rng.sample(GAMMA_PRECS, 3)
+    for must in rng.sample(["int0", 0.0, "false", "none", "default"], 2):
+        if must not in k:
+            k.append(must)
+    kind = "gamma-prec-" + ("fine" if fine else "coarse")
+    r = rng.random()
+    if r < 0.8:
+        # deviation around one of the precisions in play (or 0 / 1 / 256 units when all of them disable the check)
+        pus = [prec_units(p, ub) for p in k if prec_units(p, ub) is not None]
+        kind += "-perturbed-" + perturb(rng, t, rng.choice(pus) if pus else None)
+        if rng.random() < 0.25:
+            kind += "+" + perturb(rng, t, rng.choice([0, 1, 3]))
+    case = {"kind": "stats", "gen": kind, "tree": t, "gprecs": k,
+            "groutes": [rng.choice(["fn", "fn", "method"]) for _ in k]}
+    if fine:
+        case["ubits"] = ub
+    return case
+
+
+def gamma_fixed_cases():
+    """tips off by 2**-30 (inside the default 1e-5, outside 0) and a grossly crooked tree, every precision value,
+    both entry points"""
+    def tree(lens, ub):
+        lf = lambda i, x, l: {"id": i, "taxon": x, "label": None, "len": l, "kids": []}
+        nd = lambda i, l, ks: {"id": i, "taxon": None, "label": None, "len": l, "kids": ks}
+        a, b, c, d = lens
+        return nd(0, None, [nd(1, 1 << ub, [lf(2, 0, a), lf(3, 1, b)]), nd(4, 1 << ub, [lf(5, 2, c), lf(6, 3, d)])])
+    u = 1 << FINE_BITS
+    nearly = tree([u, u + (1 << 10), u, u], FINE_BITS)
+    crooked = tree([1024, 3072, 512, 1024], 10)
+    ps = ["int0", 0.0, "false", "none", "default", 1e-12, 1e-9, 1.0, -1.0]
+    out = []
+    for route in ("fn", "method"):
+        out.append({"kind": "stats", "gen": "gamma-prec-fixed-nearly", "tree": copy.deepcopy(nearly), "gprecs": list(ps),
+                    "groutes": [route] * len(ps), "ubits": FINE_BITS})
+        out.append({"kind": "stats", "gen": "gamma-prec-fixed-crooked", "tree": copy.deepcopy(crooked), "gprecs": list(ps),
+                    "groutes": [route] * len(ps)})
+    return out
+
+
 def f16_witness():
     lf = lambda i, x, l: {"id": i, "taxon": x, "label": None, "len": l, "kids": []}
     return {"id": 0, "taxon": None, "label": None, "len": None, "kids": [
@@ -298,6 +355,7 @@ def fixed_cases():
     out.append(dict(out[0], gen="masked-typeerror", tree=m))
     out.append({"kind": "stats", "gen": "F16-witness", "tree": copy.deepcopy(w), "gprecs": ["default", 10 * UNIT]})
     out.append({"kind": "depth", "gen": "F16-witness", "tree": copy.deepcopy(w), "xs": [0, 10, 11, 20, 29, 30]})
+    out.extend(gamma_fixed_cases())
     return out
 
 
@@ -519,10 +577,19 @@ def reversed_spec(spec):
     return t
 
 
-def stats_of(spec, gprecs):
+def stats_of(spec, gprecs, ub=10, routes=None):
+    import warnings
     from dendropy.calculate import treemeasure as tm
     out = {}
-    mk = lambda: build(spec)[0]
+    mk = lambda: build(spec, ub)[0]
+    routes = routes or ["fn"] * len(gprecs)
+
+    def method(tree, *a, **kw):
+        from dendropy.utility import deprecate
+        deprecate._initialize_deprecation_warnings()    # installs its own filter once; ours goes in front
+        with warnings.catch_warnings():
+            warnings.simplefilter("ignore")
+            return tree.pybus_harvey_gamma(*a, **kw)
     out["b1"] = attempt(lambda: tm.B1(mk()), fl)
     out["colless"] = [attempt(lambda nm=nm: tm.colless_tree_imbalance(mk(), normalize=nm), fl) for nm in NORMS]
     out["colless_default"] = attempt(lambda: tm.colless_tree_imbalance(mk()), fl)
@@ -531,13 +598,28 @@ def stats_of(spec, gprecs):
     out["nbar"] = attempt(lambda: tm.N_bar(mk()), fl)
     out["treeness"] = attempt(lambda: tm.treeness(mk()), fl)
     gam = []
-    for p in gprecs:
+    ages_route = []
+    for p, route in zip(gprecs, routes):
         use, val = prec_value(p)
-        if use:
+        if route == "method":
+            # deprecated Tree.pybus_harvey_gamma(prec=...): keyword or positional
+            if use and p in ("none", "default", 1.0):
+                gam.append(attempt(lambda: method(mk(), val), fl, cerr_enum))              # positional
+            elif use:
+                gam.append(attempt(lambda: method(mk(), prec=val), fl, cerr_enum))
+            else:
+                gam.append(attempt(lambda: method(mk()), fl, cerr_enum))
+        elif use:
             gam.append(attempt(lambda: tm.pybus_harvey_gamma(mk(), prec=val), fl, cerr_enum))
         else:
             gam.append(attempt(lambda: tm.pybus_harvey_gamma(mk()), fl, cerr_enum))
+        # the other route to the same check: calc_node_ages with the same precision on a fresh tree object
+        if use:
+            ages_route.append(attempt(lambda: mk().calc_node_ages(ultrametricity_precision=val), lambda v: None, cerr_enum))
+        else:
+            ages_route.append(attempt(lambda: mk().calc_node_ages(), lambda v: None, cerr_enum))
     out["gamma"] = gam
+    out["gamma_ages_route"] = ages_route
     return out
 
 
@@ -545,8 +627,8 @@ def observe_stats(case):
     from dendropy.calculate import treemeasure as tm
     spec = case["tree"]
     n = len(trees.leaves(spec))
-    obs = stats_of(spec, case["gprecs"])
-    obs["rev"] = stats_of(reversed_spec(spec), case["gprecs"])
+    obs = stats_of(spec, case["gprecs"], ubits(case), case.get("groutes"))
+    obs["rev"] = stats_of(reversed_spec(spec), case["gprecs"], ubits(case), case.get("groutes"))
     obs["tr"] = {"ln_n": fl(math.log(n)), "ln_2": fl(math.log(2)), "euler": fl(tm.EULERS_CONSTANT),
                  "pow15": fl(pow(n, 3.0 / 2)), "sqrt_f": fl(pow(1 / (12 * (n - 2.0)), 0.5)) if n > 2 else [0, 1]}
     return obs
@@ -658,7 +740,7 @@ def to_coq1(case, obs):
     col.append(cpair("NMax", c_sobs(obs["colless_default"])))        # default normalize="max"
     sac = [cpair(NORM_COQ[nm], c_sobs(o)) for nm, o in zip(NORMS, obs["sackin"])]
     sac.append(cpair("NTrue", c_sobs(obs["sackin_default"])))        # default normalize=True
-    gam = clist([cpair(c_prec(p), c_gobs(o)) for p, o in zip(case["gprecs"], obs["gamma"])])
+    gam = clist([cpair(c_prec(p, ubits(case)), c_gobs(o)) for p, o in zip(case["gprecs"], obs["gamma"])])
     return "(CaseStats %s %s %s %s %s %s %s %s %s)" % (cbool(fixed_variant()), t, tr,
                                                     c_sobs(obs["b1"]), clist(col), clist(sac), c_sobs(obs["nbar"]),
                                                     c_sobs(obs["treeness"]), gam)
@@ -947,6 +1029,41 @@ def oracle_stats(case, obs):
                 f = float(want) / math.sqrt(1.0 / (12 * (n - 2)))
                 if val is None or not math.isclose(val, f, rel_tol=1e-10, abs_tol=1e-12):
                     return ("pybus_harvey_gamma(prec=%r) = %r, definition gives %r" % (p, o, f), "gamma")
+    # gamma's ultrametricity precision (exact integers): a tree whose tip paths differ by more than prec is rejected,
+    # one whose paths agree within prec is not, and with the check disabled (None / False / negative) nothing is
+    # rejected - for every kind of prec value and both entry points
+    ub = ubits(case)
+    if all(nd["len"] is not None for nd in nonroot):
+        spread = max(max(v) - min(v) for v in td.values())
+
+        def fp(nd):                      # the path that always descends into the first child
+            return 0 if not nd["kids"] else fp(nd["kids"][0]) + nd["kids"][0]["len"]
+        local = max([abs(fp(nd) - (fp(c) + c["len"])) for nd in internal for c in nd["kids"][1:]] or [0])
+        routes = case.get("groutes") or ["fn"] * len(case["gprecs"])
+        for j, (p, o) in enumerate(zip(case["gprecs"], obs["gamma"])):
+            pu = prec_units(p, ub)
+            rejected = (o[0] == "err" and o[1] == "Ultra")
+            entry = ("Tree.pybus_harvey_gamma" if routes[j] == "method" else "treemeasure.pybus_harvey_gamma")
+            pclass = ("default" if p == "default" else "disabled" if pu is None else "zero" if pu == 0 and p in ("int0", 0, 0.0)
+                      else "positive")
+            if pu is None and rejected:
+                return ("%s(prec=%r) raised UltrametricityError although prec disables the check (%s)"
+                        % (entry, prec_value(p)[1], newick_u(spec, ub)), "gamma-prec-disabled-but-rejected")
+            if pu is not None and spread <= pu and rejected:
+                return ("%s(prec=%r) raised UltrametricityError although all tip paths below every node agree within "
+                        "%d units of 2**-%d (prec = %d units) (%s)" % (entry, prec_value(p)[1], spread, ub, pu, newick_u(spec, ub)),
+                        "gamma-prec-within-but-rejected:" + pclass)
+            if pu is not None and local > pu and not rejected:
+                return ("%s(prec=%r) returned %r although two tip paths below a node differ by %d units of 2**-%d "
+                        "(prec = %d units): not rejected (%s)" % (entry, prec_value(p)[1], o, local, ub, pu, newick_u(spec, ub)),
+                        "gamma-prec-beyond-but-accepted:" + pclass)
+            # route A = route B: the same precision handed to calc_node_ages on a fresh tree object
+            ar = obs["gamma_ages_route"][j]
+            if rejected != (ar[0] == "err" and ar[1] == "Ultra"):
+                return ("%s(prec=%r) %s, calc_node_ages(ultrametricity_precision=%r) on a fresh tree object %s (%s)"
+                        % (entry, prec_value(p)[1], "raised UltrametricityError" if rejected else "did not reject",
+                           prec_value(p)[1], "raised UltrametricityError" if not rejected else "did not reject",
+                           newick_u(spec, ub)), "gamma-prec-differs-from-calc-node-ages:" + pclass)
     # independence of child order (every child list reversed)
     rev = obs["rev"]
 
@@ -964,7 +1081,7 @@ def oracle_stats(case, obs):
             if not same(a, b):
                 return ("%s depends on child order: %r vs %r" % (k, a, b), "child-order-" + k)
     for p, a, b in zip(case["gprecs"], obs["gamma"], rev["gamma"]):
-        pu = prec_units(p)
+        pu = prec_units(p, ub)
         if (exact or pu == 0) and not same(a, b):
             return ("pybus_harvey_gamma(prec=%r) depends on child order: %r vs %r" % (p, a, b), "child-order-gamma")
     return None
@@ -1001,6 +1118,8 @@ def gen_case(rng, maxleaves):
         return gen_ages_case(rng, maxleaves)
     if r < 0.72:
         return gen_depth_case(rng, maxleaves)
+    if r < 0.80:
+        return gen_gamma_case(rng, maxleaves)
     return gen_stats_case(rng, maxleaves)
 
 
@@ -1139,7 +1258,13 @@ def run(tier, seed, replay=None):
                            "grid with deviations of 1 unit and ~1e-9 at precisions 0 / 1e-9 / 2e-9 / 1e-12 (all values exact in "
                            "binary64; oracle: rejected iff some node's tip paths differ by more than the precision, in exact integers); "
                            "depth cases query num_lineages_at at node depths +-1 unit; stats cases cover every normalisation and "
-                           "the child-reversed tree; 12%% of the cases are histories on one tree object (query group, 1-2 edits of the "
+                           "the child-reversed tree; 8%% of the cases hand the gamma entry point an explicit precision of every kind "
+                           "(int 0, 0.0, False, None, default, 1e-12, 1e-9, negative, 1.0, one grid unit) through "
+                           "treemeasure.pybus_harvey_gamma(prec=) and the deprecated Tree.pybus_harvey_gamma (keyword and positional) "
+                           "on binary ultrametric trees of the 2^-40 and 2^-10 grids perturbed by precision-1/precision/precision+1 "
+                           "units (oracle in exact integers: rejected when two first-child paths differ by more than prec, not "
+                           "rejected when all tip paths agree within prec or prec disables the check, and the same verdict as "
+                           "calc_node_ages with that precision on a fresh tree); 12%% of the cases are histories on one tree object (query group, 1-2 edits of the "
                            "lengths by scale_edges / assignment / set_edge_lengths_from_node_ages / reroot_at_node, query group again, "
                            "up to 3 rounds, after a call that leaves root_distance or age attributes behind) judged on the tree as it "
                            "is at each query; thorough adds every ordered shape with <= 6 leaves; a case is non-trivial when "
